@@ -97,8 +97,20 @@ CliWmcOK(e) ==
 CliF2bOK(e) == ListedOrder /\ Len(e.json.roots) = 1 /\ SerBddDen(e.json.nodes, e.json.roots[1]) = EvalNamed(e.in, NamesIn(e.in))
 CliC2bOK(e) == Len(e.json.roots) = 1 /\ SerBddDen(e.json.nodes, e.json.roots[1]) = EvalCnf(e.in)
 
+(* ---- C11: the semantic hash across representations (BDD orders, vtrees, top-down orders and stores) ---- *)
+XDen(e) == IF e.repr = "sdd" THEN DenPtr(ExtendDen(<< >>, e.nodes, 1), e.root) ELSE DenBdd(e.nodes, e.root)
+XHashOK(e) ==
+  LET d == XDen(e)
+      OneMinus(pn, h, hn) == LET s == LAdd(h, hn) IN s = <<1>> \/ s = LAdd(PrimeLimbs(pn), <<1>>)
+  IN /\ (IF <<"h64", d>> \in DOMAIN hashes THEN hashes[<<"h64", d>>] = e.h64 ELSE TRUE)      \* same function => same hash
+     /\ (IF <<"h32", d>> \in DOMAIN hashes THEN hashes[<<"h32", d>>] = e.h32 ELSE TRUE)
+     /\ (IF <<"h64", Neg(d)>> \in DOMAIN hashes THEN OneMinus("U64_LARGEST", e.h64, hashes[<<"h64", Neg(d)>>]) ELSE TRUE)
+     /\ (IF <<"h32", Neg(d)>> \in DOMAIN hashes THEN OneMinus("U32_SMALL", e.h32, hashes[<<"h32", Neg(d)>>]) ELSE TRUE)
+XHashUpd(e) == LET d == XDen(e) IN (<<"h64", d>> :> e.h64) @@ (<<"h32", d>> :> e.h32) @@ hashes
+
 EventOK(e) ==
-  CASE e.ev = "cli_wmc" -> CliWmcOK(e)
+  CASE e.ev = "xhash" -> XHashOK(e)
+    [] e.ev = "cli_wmc" -> CliWmcOK(e)
     [] e.ev = "cli_f2b" -> CliF2bOK(e)
     [] e.ev = "cli_c2b" -> CliC2bOK(e)
     [] e.ev = "dimacs_cnf" -> SetsOf(e.out) = SetsOf(e.in) /\ e.out_nv = MaxVar(e.in) + 1
@@ -115,7 +127,8 @@ Init == /\ l = 2 /\ nvars = 0 /\ vt = << >> /\ flat = << >> /\ compress = TRUE /
 Step == /\ l <= Len(Rec) /\ l' = l + 1
         /\ "panic" \notin DOMAIN Rec[l] /\ "inexact" \notin DOMAIN Rec[l]
         /\ EventOK(Rec[l])
-        /\ UNCHANGED <<nvars, vt, flat, compress, semantic, node, nden, root, den, canon, contents, hashes>>
+        /\ hashes' = (IF Rec[l].ev = "xhash" THEN XHashUpd(Rec[l]) ELSE hashes)
+        /\ UNCHANGED <<nvars, vt, flat, compress, semantic, node, nden, root, den, canon, contents>>
 Spec == Init /\ [][Step]_tvars
 Accepted ==
   LET d == TLCGet("stats").diameter IN
